@@ -435,4 +435,17 @@ theorem closest_wf (rt : RT) (hwf : WF m w rt.me [] rt.trie) (target : Bits) (ht
     · exact Or.inr hk
   exact (take_sort_subset target k (liveAll rt excl) W hAnd hWnd hinj hSA hsep hbig).symm
 
+theorem find_of_nodup_ids : ∀ {l : List Node} {n : Node}, (l.map (·.id)).Nodup → n ∈ l →
+    l.find? (fun x => x.id == n.id) = some n
+  | [], _, _, h => by simp at h
+  | x :: l, n, hnd, h => by
+    simp only [map_cons, nodup_cons, mem_map, not_exists, not_and] at hnd
+    simp only [mem_cons] at h
+    rcases h with rfl | h
+    · simp
+    · have hne : ¬ x.id = n.id := fun he => hnd.1 n h he.symm
+      have hb : (x.id == n.id) = false := by simpa using hne
+      rw [List.find?_cons, hb]
+      exact find_of_nodup_ids hnd.2 h
+
 end Ipv8.C14
